@@ -111,10 +111,13 @@ def judge_value_change(va, vb, cls_name):
         return ("C03", "literalChanged")
     if not (va.lower() == vb.lower() or va.upper() == vb.upper()):
         return ("C01", "codeChanged")
+    # str.upper()/lower() of non-ASCII letters ('ß' -> 'SS', 'µ' -> 'Μ'): a defect of its own, kept apart from the
+    # ASCII kinds so that listing it does not hide a case rule that rewrites ordinary text
+    na = "NonAscii" if any(ord(c) > 127 for c in va) else ""
     if len(va) != len(vb):
-        return ("C03", "lengthChanged")
+        return ("C03", "lengthChanged" + na)
     if fold_s(va) != fold_s(vb):
-        return ("C03", "notCaseOnly")
+        return ("C03", "notCaseOnly" + na)
     return None
 
 
